@@ -64,7 +64,7 @@ def run_driver(run, scenarios, tag, procs):
         i, chunk = i_chunk
         path = os.path.join(run.work, "%s-%02d.scn.ndjson" % (tag, i))
         sc.write_scenarios(path, chunk)
-        out = json.loads(run.drv("sched", ["-in", path, "-out", os.path.join(run.work, "traces"), "-shards", 1,
+        out = json.loads(run.drv("sched", ["-in", path, "-out", os.path.join(run.work, "traces"), "-shards", max(1, len(chunk) // 400),
                                            "-prefix", "%s-%02d" % (tag, i)], timeout=3000).strip().splitlines()[-1])
         return out
 
@@ -83,8 +83,10 @@ def check(run):
     run.rule = ("a behaviour = one scenario (catalog x pools x existing nodes x daemonsets x storage x pod batch x options) run "
                 "through the real Provisioner.Schedule; it is non-trivial when Karpenter placed at least one pod on an existing "
                 "node or a new NodeClaim (only then a C01 guard is evaluated)")
-    # 1. closed model, vacuity
-    write_cfg(run, "Scheduling_MC_run.cfg", tier["mc"], "Spec",
+    # 1. closed model, vacuity (VERIF_SKIP_MODEL=1: developer aid for mutation runs, never used by registered commands)
+    skip_model = bool(os.environ.get("VERIF_SKIP_MODEL"))
+    write_cfg(run, "Scheduling_MC_run.cfg", tier["mc"] if not skip_model else
+              "NPods = 1  PodArchs = {1}  Catalogs = {1}  PoolSets = {1}  Existings = {0}  Daemons = {0}", "Spec",
               ["Inv_C01_NoOvercommit", "Inv_C01_EveryLaunchOptionHostsItsPods", "Inv_C01_RequiredTermNeverDropped"])
     run.closed_model("Scheduling", "Scheduling_MC_run.cfg", workers=4 if dev else None, heap="4g" if dev else "8g", timeout=2400)
     write_cfg(run, "Scheduling_Cov_run.cfg", "NPods = 2  PodArchs = {2,4,7,9,11}  Catalogs = {2}  PoolSets = {3}  Existings = {3}  Daemons = {3}",
@@ -94,11 +96,17 @@ def check(run):
         raise vlib.InfraError("coverage run of the closed model failed: %s" % (r.violated or r.error))
     if r.coverage_zero:
         raise vlib.InfraError("vacuous closed model, actions never taken: %s" % r.coverage_zero)
-    for w, inv in WEAK.items():
+    for w, inv in ({} if skip_model else WEAK).items():
         wr = run.tlc("Scheduling", "Scheduling_Weak%s.cfg" % w, workers=2, expect_violation=True, timeout=600)
         if not wr.violated or (inv and wr.violated != inv):
             raise vlib.InfraError("spec mutation Scheduling_Weak%s.cfg not rejected by TLC (got %s)" % (w, wr.violated or wr.error))
-    run.notes.append("spec mutations rejected: " + ", ".join(sorted(WEAK)))
+    if not skip_model:
+        run.notes.append("spec mutations rejected: " + ", ".join(sorted(WEAK)))
+        # every degree of candidate-evaluation parallelism: the lowest-index selection of parallelizeUntil is schedule-independent
+        run.closed_model("ParallelMin", "ParallelMin_MC.cfg", workers=2, timeout=600)
+        pw = run.tlc("ParallelMin", "ParallelMin_Weak.cfg", workers=2, expect_violation=True, timeout=600)
+        if pw.violated != "Inv_SelectionIsLowest":
+            raise vlib.InfraError("spec mutation ParallelMin_Weak.cfg not rejected by TLC")
     # 2. TLC-enumerated scenarios
     write_cfg(run, "Scheduling_Gen_run.cfg", tier["gen"], "GenSpec", ["GenPrint"])
     enum = [fix_maps(s) for s in run.generate("Scheduling", "Scheduling_Gen_run.cfg", workers=2, timeout=1800, heap="4g")]
